@@ -591,6 +591,17 @@ def main():
             unverifiable.append({"obligation": "trusted-text :: %s :: %s" % (key, what), "fn": key,
                                  "msg": "trusted code changed (%s): %s; its assumed contract is no longer backed by the reviewed text" % (why, what),
                                  "clause": "", "origin": None, "rendered": "%s: %s (%s)" % (key, what, why)})
+        rec_files = set(r["file"] for r in recs) if vr.status not in ("undecided", "skipped") else set()
+        rec_conts = set((r["file"], re.sub(r"\s+", " ", r["container"]).strip()) for r in recs) if rec_files else set()
+        core = re.compile(r"\b(TooDee\w*|Rows(Mut)?|Col(Mut)?|FlattenExact|DrainCol)\b")
+        for f_, c_, n_ in trusted_text.new_functions(repo_src):
+            same_cont = (f_, c_) in rec_conts
+            known_cont = any(k.startswith("%s|%s|" % (f_, c_)) for k in json.load(open(trusted_text.STORE)).get("inventory", []))
+            relevant = same_cont or (f_ in rec_files and c_ == "-") or (not known_cont and c_ != "-" and core.search(c_) and f_ in rec_files | {"toodee.rs", "view.rs", "iter.rs"})
+            if relevant:
+                unverifiable.append({"obligation": "new-function :: %s|%s|%s" % (f_, c_, n_), "fn": "%s|%s|%s" % (f_, c_, n_),
+                                     "msg": "function `%s` in `%s` (%s) is new code that no contract covers (it may override a provided method or replace a derive)" % (n_, c_, f_),
+                                     "clause": "", "origin": [f_, 0], "rendered": "new function %s|%s|%s" % (f_, c_, n_)})
     except Exception as e:
         undecided.append("trusted-text guard could not run: %s" % e)
 
